@@ -10,4 +10,19 @@ if a[0] == 'fixed':
                           'line': 'fixed: property=%s %s %s' % (a[1], a[2], a[3])})
 elif a[0] == 'known':
     d['findings'].append({'status': 'known', 'property': a[1], 'id': a[2], 'what': a[3], 'sigs': a[4:]})
+elif a[0] == 'from-replays':
+    # kf.py from-replays <property> <id> <what> <substring>...   (collects the exact failing signatures currently in replays/)
+    import glob
+    prop, kid, what, subs = a[1], a[2], a[3], a[4:]
+    sigs = []
+    for f in sorted(glob.glob(os.path.join(os.path.dirname(P), 'replays', '%s-*.json' % prop))):
+        r = json.load(open(f))
+        if all(s in r['sig'] for s in subs):
+            sigs.append(r['sig'])
+    ex = [f for f in d['findings'] if f.get('id') == kid]
+    if ex:
+        ex[0]['sigs'] = sorted(set(ex[0]['sigs']) | set(sigs)); ex[0]['what'] = what
+    else:
+        d['findings'].append({'status': 'known', 'property': prop, 'id': kid, 'what': what, 'sigs': sorted(sigs)})
+    print('%s: %d signatures' % (kid, len(sigs)))
 json.dump(d, open(P, 'w'), indent=1)
